@@ -32,7 +32,7 @@ theorem cond_ren (ρ : List Char → List Char) (N : List Char → Prop) (hρ : 
 /-- the tokens of two piece lists that differ in tag names only correspond -/
 theorem tokNs_of_tnorm (ds de ds' de' : List Char) (ρ : List Char → List Char) (N : List Char → Prop) :
     ∀ (ps ps' : List Piece) (acc : List Char) (T T' : List Token), PiecesRen ρ N ps ps' →
-    (∀ p ∈ ps, p.free (ds ++ de)) → (∀ p ∈ ps', p.free (ds' ++ de')) →
+    (∀ p ∈ ps, p.strip ds de) → (∀ p ∈ ps', p.strip ds' de') →
     T.map (fun t => (t.kind, t.value)) = tnorm ds de [] ps acc →
     T'.map (fun t => (t.kind, t.value)) = tnorm ds' de' [] ps' acc → TokNs ds de ds' de' ρ N (fun _ _ => True) T T'
   | [], [], acc, T, T', _, _, _, hT, hT' => by
@@ -79,7 +79,7 @@ theorem tokNs_of_tnorm (ds de ds' de' : List Char) (ρ : List Char → List Char
       (fun p hp => hf' p (by simp [hp])) hT3 hU3
     have hfr := hf (.tag b0 rest) (by simp)
     have hfr' := hf' (.tag b0' rest') (by simp)
-    simp only [Piece.free] at hfr hfr'
+    simp only [Piece.strip] at hfr hfr'
     cases T2 with
     | nil => simp at hT2
     | cons u us =>
@@ -286,7 +286,7 @@ theorem rename_exact (d0 : Char) (dr : List Char) (e0 : Char) (er : List Char)
     (hd0 : wsChar d0 = false) (hel : ∀ w c, (e0 :: er) = w ++ [c] → wsChar c = false)
     (hd0' : wsChar d0' = false) (hel' : ∀ w c, (e0' :: er') = w ++ [c] → wsChar c = false)
     (ps ps' : List Piece) (hren : PiecesRen ρ N ps ps')
-    (hfree : ∀ p ∈ ps, p.free ((d0 :: dr) ++ (e0 :: er))) (hfree' : ∀ p ∈ ps', p.free ((d0' :: dr') ++ (e0' :: er')))
+    (hfree : ∀ p ∈ ps, p.fits d0 e0 (d0 :: dr) (e0 :: er)) (hfree' : ∀ p ∈ ps', p.fits d0' e0' (d0' :: dr') (e0' :: er'))
     (cfg : Cfg) (htl : N cfg.tlName) (hrm : N cfg.rmName) (out out' : List Char)
     (hnu : NoUnwrapAttr (parseSource (renderAll (d0 :: dr) (e0 :: er) ps) (d0 :: dr) (e0 :: er)))
     (h : clean (renderAll (d0 :: dr) (e0 :: er) ps) (d0 :: dr) (e0 :: er) cfg = .ok out)
@@ -294,9 +294,10 @@ theorem rename_exact (d0 : Char) (dr : List Char) (e0 : Char) (er : List Char)
       { cfg with tlName := ρ cfg.tlName, rmName := ρ cfg.rmName } = .ok out') :
     ∃ qs qs', out = renderAll (d0 :: dr) (e0 :: er) qs ∧ out' = renderAll (d0' :: dr') (e0' :: er') qs' ∧
       PiecesRen ρ N qs qs' := by
-  have hok : ∀ p ∈ ps, p.ok d0 e0 := fun p hp => ok_of_free d0 dr e0 er p (hfree p hp)
-  have hok' : ∀ p ∈ ps', p.ok d0' e0' := fun p hp => ok_of_free d0' dr' e0' er' p (hfree' p hp)
-  have hT := tokNs_of_tnorm (d0 :: dr) (e0 :: er) (d0' :: dr') (e0' :: er') ρ N ps ps' [] _ _ hren hfree hfree'
+  have hok : ∀ p ∈ ps, p.ok d0 e0 := fun p hp => Piece.ok_of_fits _ _ _ _ p (hfree p hp)
+  have hok' : ∀ p ∈ ps', p.ok d0' e0' := fun p hp => Piece.ok_of_fits _ _ _ _ p (hfree' p hp)
+  have hT := tokNs_of_tnorm (d0 :: dr) (e0 :: er) (d0' :: dr') (e0' :: er') ρ N ps ps' [] _ _ hren
+    (fun p hp => Piece.strip_of_fits _ _ _ _ p (hfree p hp)) (fun p hp => Piece.strip_of_fits _ _ _ _ p (hfree' p hp))
     (tokens_tnorm d0 dr e0 er ps hok) (tokens_tnorm d0' dr' e0' er' ps' hok')
   have hG := parse_n (d0 :: dr) (e0 :: er) (d0' :: dr') (e0' :: er') ρ N (fun _ _ => True) hρ (by simp) (by simp) (by simp) (by simp) _ _ hT
   have hP : ∀ el, N el.name →
